@@ -62,7 +62,7 @@ func init() {
 		ThoroughConfigs: []string{"elpscheck"},
 	})
 	registerProp(PropSpec{ID: "C11",
-		Rules: []string{"MUT.mutators", "MUT.map", "VIEW.producers", "MUT.field", "MUT.elem", "MUT.grow", "MUT.view", "MAP.entries-sorted"},
+		Rules: []string{"MUT.mutators", "MUT.map", "VIEW.producers", "MAP.backing-fresh", "MUT.field", "MUT.elem", "MUT.grow", "MUT.view", "MAP.entries-sorted"},
 		Explanation: "who may change a value in place",
 		Assumptions: []string{"go/types + go/cfg + go/ssa model of the working tree"},
 		ThoroughConfigs: []string{"elpscheck"},
